@@ -147,9 +147,11 @@ KStogDecl(n) == { s \in [1..n -> Boxes] : DisjointBoxes(s) /\ AbutBoxes(s) }
 \* (B is the set Boxes, passed along so that TLC computes it once per evaluation)
 TrunksOf(B) == { <<t>> : t \in B }
 BranchesOf(B, s) == { b \in B : Abuts(s[1], b) /\ \A i \in 2..Len(s) : ~Overlaps(s[i], b) }
-ExtendOf(B, S) == UNION { { Append(s, b) : b \in BranchesOf(B, s) } : s \in S }
-RECURSIVE KStogOf(_, _)
-KStogOf(B, n) == IF n = 1 THEN TrunksOf(B) ELSE ExtendOf(B, KStogOf(B, n - 1))
+\* all n-box shapes on trunk t whose branches come from br = the boxes abutting t
+RECURSIVE StogsOn(_, _, _)
+StogsOn(t, br, n) == IF n = 1 THEN { <<t>> }
+                     ELSE UNION { { Append(s, b) : b \in BranchesOf(br, s) } : s \in StogsOn(t, br, n - 1) }
+KStogOf(B, n) == UNION { StogsOn(t, { b \in B : Abuts(t, b) }, n) : t \in B }
 Trunks == TrunksOf(Boxes)
 BranchesFor(s) == BranchesOf(Boxes, s)
 KStog(n) == KStogOf(Boxes, n)
@@ -162,14 +164,42 @@ KStog(n) == KStogOf(Boxes, n)
 SumOver(S, w) == FoldSet(LAMBDA c, acc : acc + w[c], 0, S)
 ObjSel(ss) == LET U == UNION SeqRange(ss) IN par.ratio * SumOver(U, wsel) - SumOver(U, wreal)
 Obj(s) == ObjSel(SelOf(s))
-\* the cost of every k-STOG, as a set of pairs <<shape, cost>> (computed once per evaluation, see LET below)
-Table(n) == { <<s, Obj(s)>> : s \in KStog(n) }
+\* The cost of every k-STOG, as a set of pairs <<shape, cost>>.  The boxes of a k-STOG are disjoint, so its cost is
+\* the sum of the costs of its boxes; these are tabulated once (TLCEval forces the table, otherwise TLC would
+\* re-evaluate the function body at every application).  The invariant TableIsObj ties Table to Obj.
+CellsTable == TLCEval([ b \in Boxes |-> CellsIn(b) ])
+BoxCost(S) == par.ratio * SumOver(S, wsel) - SumOver(S, wreal)
+Table(n) == LET ct == CellsTable
+                bc == TLCEval([ b \in DOMAIN ct |-> BoxCost(ct[b]) ])
+            IN { <<s, FoldSeq(LAMBDA b, acc : acc + bc[b], 0, s)>> : s \in KStog(n) }
 AdmitT(T, b) == { e[1] : e \in { f \in T : f[2] >= b } }
 FeasibleT(T, b) == \E e \in T : e[2] >= b
 BestT(T) == Max({ e[2] : e \in T })                    \* only when T # {}
 Admit(n, b) == AdmitT(Table(n), b)
 Feasible(n, b) == FeasibleT(Table(n), b)
 Best(n) == BestT(Table(n))
+
+\* ---- The same table on integers, for the trace specification (RectSearchTrace), which evaluates it on every
+\* observed grid: boxes are numbered, "abuts" and "overlaps" are tabulated once, a shape is the tuple of the bit
+\* masks of its boxes (bit c-1 <=> cell c) -- the form in which the harness transmits the models of the CNF.
+\* The invariant FastIsTable (model-checked on every grid of the universe) ties it to Table.
+RECURSIVE Pow2(_)
+Pow2(n) == IF n = 0 THEN 1 ELSE 2 * Pow2(n - 1)
+MaskOf(S) == FoldSet(LAMBDA c, acc : acc + Pow2(c - 1), 0, S)
+Bits(m) == { c \in CellIds : (m \div Pow2(c - 1)) % 2 = 1 }
+MapSeq(f(_), q) == FoldSeq(LAMBDA x, acc : Append(acc, f(x)), <<>>, q)
+MaskShape(s) == MapSeq(LAMBDA b : MaskOf(CellsIn(b)), s)
+FastTable(n) ==
+  LET bs  == SetToSeq(Boxes)
+      ids == DOMAIN bs
+      ab  == TLCEval([ t \in ids |-> { b \in ids : Abuts(bs[t], bs[b]) } ])
+      ov  == TLCEval([ a \in ids |-> { b \in ids : Overlaps(bs[a], bs[b]) } ])
+      mk  == TLCEval([ i \in ids |-> MaskOf(CellsIn(bs[i])) ])
+      bc  == TLCEval([ i \in ids |-> BoxCost(CellsIn(bs[i])) ])
+      Ext(S) == UNION { { Append(s, b) : b \in { c \in ab[s[1]] : \A i \in 2..Len(s) : c \notin ov[s[i]] } } : s \in S }
+      RECURSIVE Gen(_)
+      Gen(m) == IF m = 1 THEN { <<t>> : t \in ids } ELSE Ext(Gen(m - 1))
+  IN { << MapSeq(LAMBDA i : mk[i], s), FoldSeq(LAMBDA i, acc : acc + bc[i], 0, s) >> : s \in Gen(n) }
 
 \* every result solve(k, bound) may return
 NoResult == [sat |-> 0, boxes |-> <<>>, ret |-> 0]
@@ -192,7 +222,7 @@ AllTrue(cl) == \A f \in DOMAIN cl : cl[f]
 (* Enc: the constraint system of enforce_bb, for one box.                  *)
 (*   lil[x] (x <= right edge) is downward closed, big[x] (x >= left edge)  *)
 (*   upward closed along the coordinate list: an assignment is a prefix    *)
-(*   lilx / a suffix bigx of xs (and lily / bigy of ys).                           *)
+(*   lilx / a suffix bigx of xs (and lily / bigy of ys).                   *)
 (*   var_b[c] => lil[c.x2], big[c.x1], lily[c.y2], bigy[c.y1]   (Implied)  *)
 (*   lil[next(c.x1)] /\ big[prev(c.x2)] /\ ... => var_b[c]      (Forcing)  *)
 (*   at least one var_b                                                    *)
@@ -277,14 +307,15 @@ Shifted33 == <<Line(5, 3), Line(2, 3)>>                      \* origin (5, 2)
 Negative33 == <<Line(-1, 3), Line(-2, 3)>>                   \* origin (-1, -2): the lines x = 0, y = 0 are interior
 NonUniform24 == << <<3, 4, 6, 7, 9>>, <<-1, 1, 2>> >>
 TinyGrids == { U(1, 1), U(2, 1), U(1, 3), U(2, 2) }
+QuickMcGrids == TinyGrids \cup { U(3, 2), U(3, 3), NonUniform24 }
 QuickGrids == TinyGrids \cup { U(3, 2), U(3, 3), NonUniform33, Shifted33, Negative33, U(4, 2), NonUniform24 }
 ThoroughGrids == QuickGrids \cup { U(4, 3), U(3, 4), << <<2, 3, 5, 6, 8>>, <<0, 1, 2, 4>> >>, U(5, 2) }
 BigGrids == { U(4, 4) }
 ThoroughAllGrids == ThoroughGrids \cup BigGrids
 NonUniform23 == << <<1, 2, 4>>, <<-1, 0, 2, 3>> >>
 McSolveGrids == { U(1, 1), U(2, 1), U(2, 2) }                \* solve mode, explored exhaustively (results branch)
-QuickSolveGrids == { U(1, 1), U(2, 1), U(2, 2), U(3, 2), NonUniform23 }   \* solve mode, case generation only
-ThoroughSolveGrids == QuickSolveGrids \cup { U(3, 3) }
+QuickSolveGrids == { U(1, 1), U(2, 1), U(2, 2), U(3, 2) }    \* solve mode, case generation only
+ThoroughSolveGrids == QuickSolveGrids \cup { NonUniform23, U(3, 3) }
 ThoroughMcSolveGrids == McSolveGrids \cup { U(3, 2) }
 DefectGrids == { Shifted33 }
 
@@ -337,7 +368,7 @@ Close == /\ ~EMIT /\ mode \in {"gen", "enc"} /\ pc = "build" /\ pc' = "closed"
 \* ---- solve() and the improvement loop of main()
 HasShapes == KStog(k) # {}
 Start == /\ ~EMIT /\ mode = "solve" /\ pc = "start" /\ pc' = "call"
-         /\ bound' = LET T == Table(k) IN IF T # {} THEN BestT(T) - 1 ELSE 0
+         /\ bound' = LET T == FastTable(k) IN IF T # {} THEN BestT(T) - 1 ELSE 0
          /\ UNCHANGED <<mode, par, cells, k, xs, ys, nbr, wsel, wreal, boxes, sel, res, last>>
 Call == /\ ~EMIT /\ pc = "call" /\ pc' = "ret"
         /\ res' \in SolveResults(k, bound)
@@ -354,8 +385,8 @@ EmitGrid == /\ EMIT /\ mode = "gen" /\ pc = "start" /\ pc' = "emitted" /\ UNCHAN
                              nshapes |-> Cardinality(KStog(k)), best |-> 0]))
 EmitSolve == /\ EMIT /\ mode = "solve" /\ pc = "start" /\ pc' = "emitted" /\ UNCHANGED <<mode, par, cells, k, xs, ys, nbr, wsel, wreal, boxes, sel, bound, res, last>>
              /\ PrintT(ToJson([kind |-> "solve", cells |-> cells, k |-> k, den |-> par.den, ratio |-> par.ratio,
-                              nshapes |-> Cardinality(KStog(k)),
-                              best |-> LET T == Table(k) IN IF T # {} THEN BestT(T) ELSE 0]))
+                              nshapes |-> Cardinality(FastTable(k)),
+                              best |-> LET T == FastTable(k) IN IF T # {} THEN BestT(T) ELSE 0]))
 
 Next == \/ DefineCoords
         \/ ChooseTrunk \/ AddBranch \/ EncBox \/ Close
@@ -383,6 +414,8 @@ SolveMeetsProperty == pc = "ret" => AllTrue(SolveClauses(k, bound, res))
 LoopOptimal == (pc = "end" /\ HasShapes) => LET T == Table(k) IN
                                               /\ last # <<>> /\ Obj(last) = BestT(T)
                                               /\ bound = BestT(T) + 1 /\ ~FeasibleT(T, bound)
+TableIsObj == (mode = "solve" /\ pc = "call") => \A e \in Table(k) : e[2] = Obj(e[1])
+FastIsTable == pc = "start" => FastTable(k) = { <<MaskShape(e[1]), e[2]>> : e \in Table(k) }
 LoopNoShapes == (pc = "end" /\ ~HasShapes) => last = <<>>
 \* the bound only grows (termination of main's loop)
 BoundGrows == [][pc = "ret" => bound' >= bound]_vars
